@@ -2,7 +2,7 @@
     Statements only; proofs in Txcache/Pool_props.v. *)
 From Coq Require Import List NArith ZArith Lia Bool Permutation.
 From Verif Require Import Base.BStr Txcache.TxTypes Txcache.SenderList Txcache.Selection Txcache.Pool
-  Txcache.SenderList_proofs Txcache.Pool_proofs Txcache.Pool_props Props.C05 Props.C04.
+  Txcache.SenderList_proofs Txcache.Pool_proofs Txcache.Pool_props Txcache.Judge Txcache.Judge_proofs Props.C05 Props.C04.
 Import ListNotations.
 Open Scope Z_scope.
 
@@ -92,6 +92,19 @@ Proof.
   - destruct H as (_ & l' & _ & _ & Hl). rewrite Hl. destruct (beqb_spec (sender t) b); [congruence|reflexivity].
 Qed.
 
+(** The tie: the harness hands the IMPLEMENTATION's views after every AddTx to [Judge.c06_viewsb] (label 31 of the pool component).
+    A verdict [true] means exactly: every per-sender list within CountPerSenderThreshold and, with eviction enabled, the three pool-wide
+    counters within their thresholds plus the transaction just added. *)
+Theorem C06_checker_sound : forall cfg lastSize v, c06_viewsb cfg lastSize v = true <-> c06_views cfg lastSize v.
+Proof. exact c06_viewsb_iff. Qed.
+
+(** ... and the judge accepts the model's own views after the AddTx that ends any history *)
+Theorem C06_checker_accepts_model : forall cfg ops t alpha,
+  hist_ok (ops ++ [PAdd t]) -> thresholds_ok cfg -> 0 <= countPerSenderThreshold cfg ->
+  (forall x, In x (added_txs (ops ++ [PAdd t])) -> 0 <= size x) ->
+  c06_viewsb cfg (size t) (views_of alpha (run_pool cfg (ops ++ [PAdd t]))) = true.
+Proof. exact run_pool_views_c06_accepted. Qed.
+
 Example C06_nonvacuous :
   thresholds_ok C05.ex_cfg /\ capacity_exceeded C05.ex_cfg (run_pool C05.ex_cfg C05.ex_ops) = true /\
   cntTx (do_eviction C05.ex_cfg (run_pool C05.ex_cfg C05.ex_ops)) = 4.
@@ -105,3 +118,5 @@ Print Assumptions C06_pool_wide.
 Print Assumptions C06_excess_gone.
 Print Assumptions C06_no_eviction_when_disabled.
 Print Assumptions C06_accepted_configurations.
+Print Assumptions C06_checker_sound.
+Print Assumptions C06_checker_accepts_model.
